@@ -3,6 +3,7 @@ package c17
 import (
 	"context"
 	"fmt"
+	"k8s.io/apimachinery/pkg/api/meta"
 	"math/rand"
 	"sync"
 
@@ -32,6 +33,30 @@ func init() {
 	for _, n := range []string{"q1", "q2"} {
 		universe = append(universe, object.ObjMetadata{Namespace: "ns2", Name: n, GroupKind: schema.GroupKind{Kind: "Pod"}})
 	}
+	// a kind the REST mapper does not know yet (a custom resource applied together with its CRD):
+	// validateIdentifiers must let it pass and the engine polls it like any other identifier
+	noMatchID = len(universe)
+	universe = append(universe, object.ObjMetadata{Namespace: "ns2", Name: "w", GroupKind: schema.GroupKind{Group: "custom.example.com", Kind: "Widget"}})
+	// a kind for which the REST mapper fails with something else than "no match": validateIdentifiers
+	// must give up with that error
+	mapperErrID = len(universe)
+	universe = append(universe, object.ObjMetadata{Namespace: "ns2", Name: "b", GroupKind: schema.GroupKind{Group: "custom.example.com", Kind: "Broken"}})
+}
+
+var noMatchID, mapperErrID int
+
+// preID: identifiers that only make validateIdentifiers fail; they are never polled.
+func preID(i int) bool { return i == invalidID || i == mapperErrID }
+
+// engineMapper is the mapper handed to the engine: the static one, except that the kind Broken makes it
+// fail with an error that is not a NoMatch error.
+type brokenKindMapper struct{ meta.RESTMapper }
+
+func (m brokenKindMapper) RESTMapping(gk schema.GroupKind, versions ...string) (*meta.RESTMapping, error) {
+	if gk.Kind == "Broken" {
+		return nil, fmt.Errorf("discovery unavailable e997")
+	}
+	return m.RESTMapper.RESTMapping(gk, versions...)
 }
 
 type snapshot struct {
